@@ -70,16 +70,22 @@ type Sniffer interface {
 	SniffFile(path string) (formats.Format, error)
 }
 
-var defaultOptions = &Options{
-	UnserializeOptions: defaultUnserializeOptions,
-	formatOptions:      map[string]interface{}{},
+var defaultOptions = newDefaultOptions()
+
+// newDefaultOptions returns a fresh copy of the library defaults. Each reader
+// gets its own copy so that functional options never write to shared state.
+func newDefaultOptions() *Options {
+	return &Options{
+		UnserializeOptions: &native.UnserializeOptions{},
+		formatOptions:      map[string]interface{}{},
+	}
 }
 
 func New(opts ...ReaderOption) *Reader {
 	r := &Reader{
 		sniffer: &formats.Sniffer{},
 		Storage: storage.NewFileSystem(),
-		Options: defaultOptions,
+		Options: newDefaultOptions(),
 	}
 
 	for _, opt := range opts {
